@@ -628,10 +628,85 @@ class Gen:
             return '    ' * self.indent_level
         return r.choice(('', ' ', '  ', '    ', '\t', '        ', ' \t', '   '))
 
+    def deep(self, depth: int) -> None:
+        """`depth` argument lists opened one inside the other on one logical line (function calls, method calls, arrays,
+        dicts, keyword arguments, in any mix), the innermost one holding arguments long enough to overflow the line even
+        after all outer lists have been split: an input that needs as many - or more - successive splits as the
+        formatter's regeneration loop has rounds (5)."""
+        r = self.r
+        self.feat[f'deep-nesting:depth{min(depth, 10)}'] += 1
+        closers: T.List[T.Callable[[], None]] = []
+        last_is_kw = False
+        for _ in range(depth):
+            k = r.random()
+            after = r.random() < 0.25     # a sibling argument after the nested one
+            last_is_kw = False
+
+            def sibling() -> None:
+                self.tok(',')
+                self.tok(r.choice(("'s'", 'v1', '42', "'sibling.c'", 'true')))
+
+            if k < 0.5:
+                self.tok(r.choice([f for f in FUNCS if f != 'files'] + ['a', 'b', 'c', 'd', 'e']) if r.random() < 0.7 else r.choice(IDS))
+                self.tok('(')
+                if r.random() < 0.3:
+                    self.tok(r.choice(("'first'", 'x', '1')))
+                    self.tok(',')
+                if r.random() < 0.25:
+                    self.tok(r.choice(KWNAMES))
+                    self.tok(':')
+                    after = False         # no positional argument after a keyword argument
+                    last_is_kw = True
+                closer = ')'
+            elif k < 0.62:
+                self.tok(r.choice(IDS))
+                self.tok('.')
+                self.tok(r.choice(METHODS))
+                self.tok('(')
+                closer = ')'
+            elif k < 0.84:
+                self.tok('[')
+                if r.random() < 0.3:
+                    self.tok(r.choice(("'first'", 'x', '1')))
+                    self.tok(',')
+                closer = ']'
+            else:
+                self.tok('{')
+                self.tok("'" + r.choice(IDS) + "'")
+                self.tok(':')
+                closer = '}'
+                after = False
+                last_is_kw = True
+
+            def close(closer: str = closer, after: bool = after) -> None:
+                if after:
+                    sibling()
+                if r.random() < 0.15:
+                    self.tok(',')
+                self.tok(closer)
+            closers.append(close)
+        # the innermost arguments
+        n = 1 if last_is_kw else r.choice((1, 2, 2, 3, 5))
+        for i in range(n):
+            if i:
+                self.tok(',')
+            if r.random() < 0.8:
+                self.tok("'" + ''.join(r.choice('abcdefghijklmnopqrstuvwxyz_-./') for _ in range(r.choice((8, 20, 45, 70, 95)))) + "'")
+            else:
+                self.tok(r.choice(IDS))
+        for close in reversed(closers):
+            close()
+
     def simple_statement(self, b: int) -> None:
         r = self.r
         c = r.random()
-        if c < 0.40:
+        if c < 0.05:
+            self.feat['stmt:deep-nesting'] += 1
+            if r.random() < 0.7:
+                self.tok(r.choice(IDS))
+                self.tok('=')
+            self.deep(r.choice((3, 4, 5, 5, 6, 6, 7, 8, 10)))
+        elif c < 0.40:
             self.feat['stmt:assign'] += 1
             self.tok(r.choice(IDS))
             self.tok('=')
